@@ -579,9 +579,11 @@ Proof.
     apply (proj2 (simple_list l Hs l')). exact H.
 Qed.
 
-Lemma tr_fwd_simple kind v w : tr_fwd kind v = Some w -> simple v.
+(* kinds 1..8 accept only values without maps; kind 9 (struct{V interface{}} <-> interface{})
+   accepts any dynamic content, which may contain maps *)
+Lemma tr_fwd_simple kind v w : (kind =? 9) = false -> tr_fwd kind v = Some w -> simple v.
 Proof.
-  unfold tr_fwd. intros H.
+  unfold tr_fwd. intros Hk H. rewrite Hk in H.
   repeat match type of H with
          | (if ?c then _ else _) = _ => destruct c
          end; try discriminate;
@@ -592,18 +594,45 @@ Proof.
   apply simple_struct; repeat constructor; apply leafy_simple; reflexivity.
 Qed.
 
+Lemma tr_fwd_9 v : tr_fwd 9 v = match v with VStruct [VAny o] => Some (VAny o) | _ => None end.
+Proof. reflexivity. Qed.
 
-Lemma tr_fwd_vperm kind v v' : vperm v v' -> tr_fwd kind v = tr_fwd kind v'.
+Lemma tr_fwd_9_some v w : tr_fwd 9 v = Some w -> exists o, v = VStruct [VAny o] /\ w = VAny o.
 Proof.
-  intros H. destruct (tr_fwd kind v) as [w|] eqn:E1.
-  - apply tr_fwd_simple in E1 as S. rewrite (proj1 (S v') H). symmetry; exact E1.
-  - destruct (tr_fwd kind v') as [w'|] eqn:E2; [|reflexivity].
-    apply tr_fwd_simple in E2 as S. rewrite (proj2 (S v) H) in E1. congruence.
+  rewrite tr_fwd_9. destruct v as [b|z|bits|s|o|s|o|l|o|o|o|l|]; try discriminate.
+  destruct l as [|x [|y r]]; try discriminate; destruct x; try discriminate.
+  intros H; inversion H; subst. eauto.
 Qed.
 
-(* when a transform applies, the value contains no map at all *)
-Lemma tr_fwd_vperm_eq kind v v' w : vperm v v' -> tr_fwd kind v = Some w -> v' = v.
-Proof. intros H E. apply tr_fwd_simple in E. apply (proj1 (E v')). exact H. Qed.
+(* [vperm] commutes with the transform functions *)
+Lemma tr_fwd_vperm kind v v' : vperm v v' -> opt_rel vperm (tr_fwd kind v) (tr_fwd kind v').
+Proof.
+  intros H. destruct (kind =? 9) eqn:Ek.
+  - assert (kind = 9) by lia. subst kind.
+    destruct (tr_fwd 9 v) as [w|] eqn:E1.
+    + apply tr_fwd_9_some in E1. destruct E1 as (o & -> & ->).
+      vinv H. destruct H as (l' & -> & H).
+      inversion H as [|a a' r r' Ha Hr]; subst. inversion Hr; subst.
+      destruct o as [[t x]|]; vinv Ha.
+      * destruct Ha as (x' & -> & Hx). cbn. apply vp_any. exact Hx.
+      * subst a'. cbn. apply vp_refl.
+    + destruct (tr_fwd 9 v') as [w'|] eqn:E2; [|exact I].
+      apply tr_fwd_9_some in E2. destruct E2 as (o & -> & ->).
+      apply vperm_inv_r in H. cbn in H. destruct H as (l & -> & H).
+      inversion H as [|a a' r r' Ha Hr]; subst. inversion Hr; subst.
+      destruct o as [[t x]|]; apply vperm_inv_r in Ha; cbn in Ha.
+      * destruct Ha as (x0 & -> & Hx). discriminate E1.
+      * subst a. discriminate E1.
+  - destruct (tr_fwd kind v) as [w|] eqn:E1.
+    + apply (tr_fwd_simple _ _ _ Ek) in E1 as S. rewrite (proj1 (S v') H), E1. apply vp_refl.
+    + destruct (tr_fwd kind v') as [w'|] eqn:E2; [|exact I].
+      apply (tr_fwd_simple _ _ _ Ek) in E2 as S. rewrite (proj2 (S v) H) in E1. congruence.
+Qed.
+
+(* when a transform of kind 1..8 applies, the value contains no map at all *)
+Lemma tr_fwd_vperm_eq kind v v' w :
+  (kind =? 9) = false -> vperm v v' -> tr_fwd kind v = Some w -> v' = v.
+Proof. intros Hk H E. apply (tr_fwd_simple _ _ _ Hk) in E. apply (proj1 (E v')). exact H. Qed.
 
 (* ---------- distinct stringified keys: a decidable, type-directed check ---- *)
 
@@ -726,7 +755,11 @@ Section KD.
     | O => true
     | S f =>
       match ae_kind e with
-      | ETransform _ _ => true       (* a transformable value contains no map: [tr_fwd_simple] *)
+      | ETransform kind wire =>      (* the serial form may contain maps (kind 9): follow it *)
+          match tr_fwd kind v with
+          | None => true
+          | Some w => kd f wire w
+          end
       | EStruct fields => kd_fields f (live_fields fields v) v
       | EUnion members =>
           match v with
@@ -807,7 +840,7 @@ Lemma kd_entries_S A f vt es : kd_entries A (S f) vt es =
 Proof. reflexivity. Qed.
 Lemma kd_entry_S A f e v : kd_entry A (S f) e v =
   match ae_kind e with
-  | ETransform _ _ => true
+  | ETransform kind wire => match tr_fwd kind v with None => true | Some w => kd A f wire w end
   | EStruct fields => kd_fields A f (live_fields fields v) v
   | EUnion members =>
       match v with
@@ -946,7 +979,10 @@ Section PI.
     - intros e v v' H K. rewrite kd_entry_S in K. rewrite !marshal_entry_S.
       destruct (ae_kind e) as [fields|kind wire|members|mode].
       + cbv zeta. rewrite <- (live_fields_vperm fields v v' H). f_equal. apply Hf; assumption.
-      + rewrite <- (tr_fwd_vperm kind v v' H). reflexivity.
+      + pose proof (tr_fwd_vperm kind v v' H) as Ht.
+        destruct (tr_fwd kind v) as [w|], (tr_fwd kind v') as [w'|]; cbn in Ht; try contradiction;
+          [|reflexivity].
+        rewrite (Hm _ _ _ Ht K). reflexivity.
       + destruct v as [b|z|bits|s|o|s|o|l|o|o|o|l|]; try (destruct o as [?|]);
           try match goal with p : (gtype * gval)%type |- _ => destruct p end;
           vinv H; decomp; subst; try reflexivity.
@@ -1021,6 +1057,22 @@ Proof.
   vm_compute in H. discriminate.
 Qed.
 Print Assumptions marshal_perm_invariant_needs_distinct.
+
+(* kind 9: the serial form is the dynamic content of an interface{} field and may
+   contain maps; [keys_distinct] follows the transform into it *)
+Definition k9A : atlas := Atlas [AE (GStruct 1) (Some 50) (ETransform 9 GAny)] 0.
+Definition k9_v (es : list (gval * gval)) : gval :=
+  VStruct [VAny (Some (GMap GStr (GNum IInt), GVMap (Some es)))].
+Example kind9_map_inside_transform :
+  let a := (GVStr [97], VNum 1) in
+  let b := (GVStr [98], VNum 2) in
+  keys_distinct k9A 20 (GStruct 1) (k9_v [b; a]) = true /\
+  keys_distinct k9A 20 (GStruct 1) (k9_v [b; (GVStr [98], VNum 1)]) = false /\
+  marshal k9A 20 (GStruct 1) (k9_v [a; b]) = marshal k9A 20 (GStruct 1) (k9_v [b; a]) /\
+  marshal k9A 20 (GStruct 1) (k9_v [b; a]) =
+    MOk [Tok (MapOpen 2) (Some 50); Tok (Str [97]) None; Tok (Int 1) None;
+         Tok (Str [98]) None; Tok (Int 2) None; Tok MapClose None].
+Proof. vm_compute. repeat split; reflexivity. Qed.
 
 (* For plain string keys the hypothesis is automatic from the distinctness of the
    Go map's keys; for struct keys it is an injectivity demand on the user's
